@@ -32,6 +32,9 @@ MODULES = {
         "files": ["L_distances.v"],
         "eval": "E_distances.v",
     },
+    "layouts": {"path": "umap/layouts.py", "functions": ["clip", "rdist"], "sigs": {}, "files": ["L_layouts.v"]},
+    "utils": {"path": "umap/utils.py", "functions": ["tau_rand_int", "norm"], "sigs": {"tau_rand_int": {"args": {"state": VZ}}},
+              "files": ["L_utils.v"]},
 }
 
 
